@@ -225,7 +225,8 @@ theorem acts_curve {o o' : Obj K} {A : HomAffine K} (hA : Acts o o' A)
     (hv1 : b1.Valid) {nc : ℕ} (hs : o.cps.shape = [b1.numFunctions, nc]) (hnc : 0 < nc)
     (hdata : o.cps.data.size = b1.numFunctions * nc)
     (hw : o.rational = true → ∀ k, k < b1.numFunctions → 0 < o.cps.get (k * nc + (nc - 1)))
-    {tol : K} (htol : 0 < tol) {us : List K} (hus : ∀ u ∈ us, b1.Admissible tol u) :
+    {tol : K} (htol : 0 < tol) {us : List K} (hus : ∀ u ∈ us, b1.Admissible tol u)
+    (hneA1 : b1.periodic < 0 → us ≠ [] := by (first | assumption | (simp; done) | skip)) :
     ∃ res res', o.evaluate tol [us] true = .ok res ∧ o'.evaluate tol [us] true = .ok res' ∧
       res.shape = [us.length, o.dimension] ∧ res'.shape = [us.length, o'.dimension] ∧
       ∀ i c, i < us.length → c < o'.dimension →
@@ -254,7 +255,9 @@ theorem acts_surface {o o' : Obj K} {A : HomAffine K} (hA : Acts o o' A)
     (hw : o.rational = true → ∀ k, k < b1.numFunctions * b2.numFunctions →
       0 < o.cps.get (k * nc + (nc - 1)))
     {tol : K} (htol : 0 < tol) {us vs : List K} (hus : ∀ u ∈ us, b1.Admissible tol u)
-    (hvs : ∀ v ∈ vs, b2.Admissible tol v) :
+    (hvs : ∀ v ∈ vs, b2.Admissible tol v)
+    (hneA1 : b1.periodic < 0 → us ≠ [] := by (first | assumption | (simp; done) | skip))
+    (hneA2 : b2.periodic < 0 → vs ≠ [] := by (first | assumption | (simp; done) | skip)) :
     ∃ res res', o.evaluate tol [us, vs] true = .ok res ∧
       o'.evaluate tol [us, vs] true = .ok res' ∧
       res.shape = [us.length, vs.length, o.dimension] ∧
@@ -298,7 +301,10 @@ theorem acts_volume {o o' : Obj K} {A : HomAffine K} (hA : Acts o o' A)
     (hw : o.rational = true → ∀ k, k < b1.numFunctions * b2.numFunctions * b3.numFunctions →
       0 < o.cps.get (k * nc + (nc - 1)))
     {tol : K} (htol : 0 < tol) {us vs ws : List K} (hus : ∀ u ∈ us, b1.Admissible tol u)
-    (hvs : ∀ v ∈ vs, b2.Admissible tol v) (hws : ∀ w ∈ ws, b3.Admissible tol w) :
+    (hvs : ∀ v ∈ vs, b2.Admissible tol v) (hws : ∀ w ∈ ws, b3.Admissible tol w)
+    (hneA1 : b1.periodic < 0 → us ≠ [] := by (first | assumption | (simp; done) | skip))
+    (hneA2 : b2.periodic < 0 → vs ≠ [] := by (first | assumption | (simp; done) | skip))
+    (hneA3 : b3.periodic < 0 → ws ≠ [] := by (first | assumption | (simp; done) | skip)) :
     ∃ res res', o.evaluate tol [us, vs, ws] true = .ok res ∧
       o'.evaluate tol [us, vs, ws] true = .ok res' ∧
       res.shape = [us.length, vs.length, ws.length, o.dimension] ∧
@@ -362,7 +368,8 @@ theorem acts_curve_pw {o o' : Obj K} {A : HomAffine K} (hA : Acts o o' A)
     (hv1 : b1.Valid) {nc : ℕ} (hs : o.cps.shape = [b1.numFunctions, nc]) (hnc : 0 < nc)
     (hdata : o.cps.data.size = b1.numFunctions * nc)
     (hw : o.rational = true → ∀ k, k < b1.numFunctions → 0 < o.cps.get (k * nc + (nc - 1)))
-    {tol : K} (htol : 0 < tol) {us : List K} (hus : ∀ u ∈ us, b1.Admissible tol u) :
+    {tol : K} (htol : 0 < tol) {us : List K} (hus : ∀ u ∈ us, b1.Admissible tol u)
+    (hneA1 : b1.periodic < 0 → us ≠ [] := by (first | assumption | (simp; done) | skip)) :
     ∃ rp rp', o.evaluate tol [us] false = .ok rp ∧ o'.evaluate tol [us] false = .ok rp' ∧
       rp.shape = [us.length, o.dimension] ∧ rp'.shape = [us.length, o'.dimension] ∧
       ∀ i c, i < us.length → c < o'.dimension →
@@ -390,7 +397,9 @@ theorem acts_surface_pw {o o' : Obj K} {A : HomAffine K} (hA : Acts o o' A)
     (hw : o.rational = true → ∀ k, k < b1.numFunctions * b2.numFunctions →
       0 < o.cps.get (k * nc + (nc - 1)))
     {tol : K} (htol : 0 < tol) {us vs : List K} (hlen : vs.length = us.length)
-    (hus : ∀ u ∈ us, b1.Admissible tol u) (hvs : ∀ v ∈ vs, b2.Admissible tol v) :
+    (hus : ∀ u ∈ us, b1.Admissible tol u) (hvs : ∀ v ∈ vs, b2.Admissible tol v)
+    (hneA1 : b1.periodic < 0 → us ≠ [] := by (first | assumption | (simp; done) | skip))
+    (hneA2 : b2.periodic < 0 → vs ≠ [] := by (first | assumption | (simp; done) | skip)) :
     ∃ rp rp', o.evaluate tol [us, vs] false = .ok rp ∧
       o'.evaluate tol [us, vs] false = .ok rp' ∧
       rp.shape = [us.length, o.dimension] ∧ rp'.shape = [us.length, o'.dimension] ∧
@@ -422,7 +431,10 @@ theorem acts_volume_pw {o o' : Obj K} {A : HomAffine K} (hA : Acts o o' A)
       0 < o.cps.get (k * nc + (nc - 1)))
     {tol : K} (htol : 0 < tol) {us vs ws : List K} (hlen2 : vs.length = us.length)
     (hlen3 : ws.length = us.length) (hus : ∀ u ∈ us, b1.Admissible tol u)
-    (hvs : ∀ v ∈ vs, b2.Admissible tol v) (hws : ∀ w ∈ ws, b3.Admissible tol w) :
+    (hvs : ∀ v ∈ vs, b2.Admissible tol v) (hws : ∀ w ∈ ws, b3.Admissible tol w)
+    (hneA1 : b1.periodic < 0 → us ≠ [] := by (first | assumption | (simp; done) | skip))
+    (hneA2 : b2.periodic < 0 → vs ≠ [] := by (first | assumption | (simp; done) | skip))
+    (hneA3 : b3.periodic < 0 → ws ≠ [] := by (first | assumption | (simp; done) | skip)) :
     ∃ rp rp', o.evaluate tol [us, vs, ws] false = .ok rp ∧
       o'.evaluate tol [us, vs, ws] false = .ok rp' ∧
       rp.shape = [us.length, o.dimension] ∧ rp'.shape = [us.length, o'.dimension] ∧
